@@ -791,6 +791,134 @@ func checkFPGuard(r *Run, rc *RuleCtx, mi *mutInfo) {
 			guardBlock = lp.Header
 		}
 		if !found {
+			// form 3: a flag loop - `found := false; for i := 0; i < len(attrs) && !found; i++ { found = attrs[i].Type == FINGERPRINT }`
+			// followed by `if found { return error }`
+			for _, lp := range loops {
+				idx, start, bound, isIdx := indexLoopInfo(lp)
+				if !isIdx || start != 0 {
+					continue
+				}
+				ln, isLen := bound.(*ssa.Call)
+				if !isLen || !isBuiltinCall(ln, "len") {
+					continue
+				}
+				if _, f := loadedField(ln.Call.Args[0]); f != attrsF {
+					continue
+				}
+				// the flag: a boolean phi at the header, false on entry, the comparison on the back edge
+				var flag *ssa.Phi
+				for _, in := range lp.Header.Instrs {
+					ph, isPhi := in.(*ssa.Phi)
+					if !isPhi {
+						break
+					}
+					if b, isB := ph.Type().Underlying().(*types.Basic); !isB || b.Kind() != types.Bool {
+						continue
+					}
+					okFlag := len(ph.Edges) > 0
+					for k, e := range ph.Edges {
+						if !lp.Body[lp.Header.Preds[k]] {
+							if c, isC := e.(*ssa.Const); !isC || c.Value == nil || c.Value.String() != "false" {
+								okFlag = false
+							}
+							continue
+						}
+						cmp, isCmp := e.(*ssa.BinOp)
+						if !isCmp || cmp.Op != token.EQL {
+							okFlag = false
+							continue
+						}
+						cv, isC := constInt(cmp.Y)
+						x := cmp.X
+						if !isC {
+							cv, isC = constInt(cmp.X)
+							x = cmp.Y
+						}
+						if !isC || cv != fpConst {
+							okFlag = false
+							continue
+						}
+						// the compared value is attrs[idx].Type
+						ld, isLd := stripConvs(x).(*ssa.UnOp)
+						if !isLd || ld.Op != token.MUL {
+							okFlag = false
+							continue
+						}
+						fa, isFA := ld.X.(*ssa.FieldAddr)
+						if !isFA || fieldOfAddr(fa) == nil || fieldOfAddr(fa).Name() != "Type" {
+							okFlag = false
+							continue
+						}
+						ia, isIA := fa.X.(*ssa.IndexAddr)
+						if !isIA || ia.Index != idx {
+							okFlag = false
+							continue
+						}
+						if _, f := loadedField(ia.X); f != attrsF {
+							okFlag = false
+						}
+					}
+					if okFlag {
+						flag = ph
+					}
+				}
+				if flag == nil {
+					continue
+				}
+				isFlag := func(v ssa.Value) bool {
+					for {
+						u, isU := v.(*ssa.UnOp)
+						if !isU || u.Op != token.NOT {
+							break
+						}
+						v = u.X
+					}
+					return v == ssa.Value(flag)
+				}
+				// the loop is left only at the end of the list or with the flag set
+				okExits := true
+				for _, ex := range lp.Exits() {
+					if ex[0] == lp.Header {
+						continue
+					}
+					iff, isIf := ex[0].Instrs[len(ex[0].Instrs)-1].(*ssa.If)
+					if !isIf || !isFlag(iff.Cond) {
+						okExits = false
+					}
+				}
+				if !okExits {
+					continue
+				}
+				// the test of the flag behind the loop
+				for _, ci := range ifsOn(fn, isFlag) {
+					if lp.Body[ci.If.Block()] {
+						continue
+					}
+					onSet, onClear := ci.OnTrue, ci.OnFalse
+					neg := false
+					for v := ci.If.Cond; ; {
+						u, isU := v.(*ssa.UnOp)
+						if !isU || u.Op != token.NOT {
+							break
+						}
+						neg = !neg
+						v = u.X
+					}
+					if neg {
+						onSet, onClear = onClear, onSet
+					}
+					found = true
+					rc.Instance(fnName(fn)+"|scan", true, map[string]string{"fn": fnName(fn), "guard": "flag loop over Attributes comparing Type with FINGERPRINT, flag tested behind the loop"})
+					checkEdgeReturnsError(r, rc, fn, onSet, onClear)
+					guardBlock = ci.If.Block()
+					break
+				}
+				if found {
+					break
+				}
+			}
+		}
+		if !found {
 			rc.Violation(fn, fn.Pos(), "missing FINGERPRINT guard", "MessageIntegrity.AddTo does not refuse a message that already carries FINGERPRINT")
 			return
 		}
